@@ -428,12 +428,28 @@ void run_c20(const std::vector<std::vector<std::string>>& cases, vt::Rng& rng)
          std::cerr.rdbuf(old);
       } else if (kind == "thdmrun") {
          ThdmPt p = vm::random_thdm_mass(rng, 1 + rng.below(6), false);
+         if (rng.below(3) == 0) p.mb.mA = rng.uni(0.5, 6.0);       // a Higgs boson below / around mb(mb), m_tau
          for (int run = 0; run < 2; ++run) {
             p.cfg.running_couplings = run == 1;
             Built b = build(p);
             vt::Ev ev("ThdmRun");
             ev.str("case", id).str("sig", sig).b("running", run == 1).str("exc", b.exc);
-            if (b.exc.empty()) ev.raw("yuk", vm::named_json(vm::thdm_yukawas(*b.model)));
+            if (b.exc.empty()) {
+               ev.raw("yuk", vm::named_json(vm::thdm_yukawas(*b.model)));
+               // the running third-generation masses at the scale of each Higgs boson, from the public SM-layer functions
+               const SM& sm = b.model->get_sm();
+               const double mt = sm.get_mu(2), mbmb = sm.get_md(2), mtau = sm.get_ml(2), as = sm.get_alpha_s_mz(), mz = sm.get_mz();
+               NV r{{"mt_in", mt}, {"mb_in", mbmb}, {"mtau_in", mtau}};
+               const char* names[4] = {"h", "H", "A", "Hp"};
+               const double ms[4] = {b.model->get_Mhh(0), b.model->get_Mhh(1), b.model->get_MAh(1), b.model->get_MHm(1)};
+               for (int k = 0; k < 4; ++k) {
+                  r.push_back({std::string("m_") + names[k], ms[k]});
+                  r.push_back({std::string("u_") + names[k], calculate_mt_SM6_MSbar(mt, as, mz, ms[k])});
+                  r.push_back({std::string("d_") + names[k], calculate_mb_SM6_MSbar(mbmb, mt, as, mz, ms[k])});
+                  r.push_back({std::string("l_") + names[k], calculate_mtau_SM6_MSbar(mtau, sm.get_alpha_em_mz(), ms[k])});
+               }
+               ev.raw("mrun", vm::named_json(r));
+            }
             ev.emit();
          }
       }
